@@ -26,6 +26,8 @@ claimed = {
  "C10": dict(text="Same crash/recovery construction as C09. Asserted for every crash index: the recovering run terminates (deadlock and step budget are faults), C04's consistency predicate holds on the final durable image, deferred groups of entered non-bypassed scopes have run, nothing executes afterwards, and with one verdict variable per action shared by both processes the recovered plan's status equals the uninterrupted one. Four genuine recovery defects found this way are listed in known_findings.json (F-10a..d) and reported as KNOWN-FINDING.", ref="6/C10", note=NOTE),
  "C11": dict(text="Arbitrary store content (plan and action status any 64-bit value, symbolic timestamps on plan and a nested object), symbolic maximum age and symbolic clock: the real recover state machine (start/fetchPlans/filterPlans/agedOut), lastUpdate, runningToFailed, Plans.recover and runPlan run with a recording runner. Per plan the solver decides: not Running => no write, not resumed; Running and last+max < now => closed Failed/ExceedRecovery, nothing left Running in storage, not resumed, no plugin; otherwise (boundary included) resumed exactly once and untouched. A second harness runs the real execute.New with recovery on/off.",
              ref="6/C11", note=NOTE),
+ "C12": dict(text="Real execute.Plans (New/Start/validateStartState/runPlan/Wait) and real coercion.Workstream with the real engine behind them: two Start(id) calls race (switch points at the vault Read and at lock operations, delay-bounded) and follow each other back to back; SubmitTime, maxSubmit and the clock are solver variables for the staleness clause (boundary included); every API history of bounded length over known and unknown ids is run. Asserted: at most one execution per plan, rejected Starts are errors without side effects, any panic, log.Fatalf or deadlock is a violation.",
+             ref="6/C12", note=NOTE),
 }
 NA = {
  "C17": "quantifies over Go type shapes and the code is reflection from top to bottom (reflect, html/template, deep.MustCopy); go/ssa gives no semantics for reflect and types are not SMT values, so a solver would decide nothing (DESIGN.md section 7)",
